@@ -21,8 +21,8 @@ RULE = ('Generated panels (1-6 geos quick / 1-7 thorough), all eligibility matri
         'returned >= 1 design and the feasible set has >= 2 members; distinct by input description.')
 ASSUMPTIONS = ['inputs on which either search raises are counted, not judged (C09)']
 EXHAUSTIVE = {'quick': False, 'thorough': False}
-MINIMA = {'quick': {'near_bound_cases': 25, 'dyadic_compared': 30, 'compared': 200, 'greedy_designs': 150, 'distinct_nontrivial': 80, 'referee_runs': 40},
-          'thorough': {'near_bound_cases': 250, 'dyadic_compared': 300, 'compared': 2500, 'greedy_designs': 2000, 'distinct_nontrivial': 1000, 'referee_runs': 500}}
+MINIMA = {'quick': {'shared_data_searches': 40, 'near_bound_cases': 25, 'dyadic_compared': 30, 'compared': 200, 'greedy_designs': 150, 'distinct_nontrivial': 80, 'referee_runs': 40},
+          'thorough': {'shared_data_searches': 400, 'near_bound_cases': 250, 'dyadic_compared': 300, 'compared': 2500, 'greedy_designs': 2000, 'distinct_nontrivial': 1000, 'referee_runs': 500}}
 N = {'quick': 400, 'thorough': 3600}
 CASE_TIMEOUT = {'quick': 300, 'thorough': 1200}
 
@@ -80,7 +80,9 @@ def run_case(spec):
       truth = sl.Truth(case)
       desc = sl.describe(case, with_frame=False)
       counters['near_bound_cases'] += 1
-  grec = sl.run_search(case, 'greedy')
+  shared = spec['idx'] % 4 == 2
+  grec = sl.run_search(case, 'greedy', interleave=(r if shared else None))
+  counters['shared_data_searches'] += bool(grec.get('interleaved'))
   full = dict(case, params=dict(case['params'], n_designs=100000))
   erec = sl.run_search(full, 'exhaustive')
   if (not grec['outcome'].ok or not erec['outcome'].ok or grec['designs'] is None or erec['designs'] is None):
